@@ -16,8 +16,8 @@ func ValidateVoteData(voteData []*VoteData, chainList []string) bool {
 	for _, vd := range voteData {
 		switch vd.Topic {
 		case OracleTopic_BLOCK:
-			// deprecated
-			return true
+			// deprecated: its entries are ignored by the tally, the other topics are still checked
+			continue
 
 		case OracleTopic_OWNERSHIP:
 			for _, data := range vd.Data {
@@ -41,6 +41,9 @@ func StringToOwnershipData(voteString string) (ctypes.Nft, ctypes.HexAddressStri
 	// voteString = chainId/contractAddr/tokenId:owner
 
 	data := strings.Split(voteString, ":")
+	if len(data) != 2 {
+		return ctypes.Nft{}, "", fmt.Errorf("invalid vote string: %s", voteString)
+	}
 	nft, err := ctypes.ParseNftId(data[0])
 
 	if !isValidHex(nft.ContractAddr.String()) || !isValidHex(nft.TokenId.String()) {
